@@ -264,6 +264,8 @@ fn one(out: &mut Out, name: &str, seed: u64, ops: usize, tag: &str, rt: &tokio::
         "dst/calm" | "dst/chaos" => {
             let cfg = if name == "dst/calm" { DSTConfig::calm(seed) } else { DSTConfig::chaos(seed) };
             let mut sim = DSTSimulation::with_config(cfg);
+            // `--slow` of several seconds: a simulation that was created long before it runs (a loaded or suspended host)
+            if slow_ms >= 1000 { pause(); }
             for _ in 0..ops {
                 sim.step();
                 rec.step(format!("t={:?}", sim.current_time()));
@@ -279,6 +281,7 @@ fn one(out: &mut Out, name: &str, seed: u64, ops: usize, tag: &str, rt: &tokio::
                 "redis_dst/zipf_small" => RedisDSTSimulation::with_key_distribution(seed, 3, KeyDistribution::Zipfian { num_keys: 10, skew: 1.0 }),
                 _ => RedisDSTSimulation::new_uniform(seed, 3, 20),
             };
+            if slow_ms >= 1000 { pause(); }
             let r = dbg(sim.run(ops));
             let conv = sim.check_convergence();
             let st = dbg(&sim.stats());
